@@ -390,7 +390,17 @@ class Check(CheckBase):
             ncalls = ref_store.calls
             ks = list(range(ncalls))
             if len(ks) > case['budget']:
-                ks = sorted(set(ks[:4] + ks[-6:] + r.sample(ks, case['budget'] - 10)))
+                # mutating calls first (a failing upload / deletion is what leaves a half-done command behind), snapshot
+                # objects before chunks; then the head, the tail and a seeded sample of the rest
+                mut = sorted((e['call'] for e in ref_store.log if e['op'] in membackend.MUTATING_OPS),
+                             key=lambda c: 0)
+                snap_mut = [e['call'] for e in ref_store.log if e['op'] in membackend.MUTATING_OPS and str(e['name']).startswith('snapshots/')]
+                other_mut = [c for c in mut if c not in snap_mut]
+                r.shuffle(other_mut)
+                pick = snap_mut + other_mut[: max(4, case['budget'] // 2)]
+                rest = [k for k in ks if k not in pick]
+                pick += rest[:2] + rest[-2:] + r.sample(rest, max(0, min(len(rest), case['budget'] - len(pick) - 4)))
+                ks = sorted(set(pick))
             for k in ks:
                 store = new_store(case['seed'] + k)
                 store.faults = [{'op': None, 'nth': k, 'count': 1}]
